@@ -349,7 +349,7 @@ def rand_elem(rnd, depth, scope, budget, rich=True):
     decls = []
     local = dict(scope)
     for _ in range(rnd.choice([0, 0, 1, 1, 2])):
-        px = rnd.choice(["", "p", "q"])
+        px = rnd.choice(["", "p", "q", "p", "q", "", "\u00e9", "\u65e5\u672c"])       # prefixes outside ASCII: spans are byte offsets
         if px in [d[0] for d in decls]:
             continue
         uri = rnd.choice(URIS[:3] + ([""] if px == "" else []) + (URIS[3:] if rnd.random() < 0.15 else []))
@@ -478,7 +478,7 @@ DAMAGES = ["dup-attr-expanded-inherited", "rename-etag", "delete-etag", "duplica
            "dup-attr-qname", "dup-attr-expanded", "dup-prefix-decl", "undeclared-elem-prefix", "undeclared-attr-prefix",
            "raw-lt", "raw-amp", "cdata-end-in-text", "unterminated-comment", "double-dash-comment", "unterminated-pi", "unterminated-cdata",
            "unterminated-ref", "unknown-entity", "bad-charref-syntax", "nonchar-ref", "dtd", "version-1.1", "dup-xml-id", "unclosed-root",
-           "etag-other-prefix-same-ns", "truncated-stag", "lt-in-attr"]
+           "etag-other-prefix-same-ns", "truncated-stag", "lt-in-attr", "prefix-after-scope", "charref-overflow"]
 
 NONCHARS = [0, 1, 8, 11, 0xFFFE, 0xFFFF, 0xD800, 0x110000]
 
@@ -487,7 +487,7 @@ def junk(text, kind):
     return tok("junk", [part("lit", text)], junk=kind)
 
 
-def damage(toks, kind, rnd):
+def damage(toks, kind, rnd, mode="doc"):
     """apply one well-formedness-breaking edit; returns the damaged token list or None if not applicable"""
     import copy
     t = copy.deepcopy(toks)
@@ -560,6 +560,38 @@ def damage(toks, kind, rnd):
         i = rnd.choice(stags)
         add_attr(t[i], "xmlns", "dz", [piece("lit", c) for c in cps("u1")])
         add_attr(t[i], "xmlns", "dz", [piece("lit", c) for c in cps("u2")])
+    elif kind == "prefix-after-scope" and stags:
+        # a prefix declared on an element is used by a later sibling, after the element has ended (in a fragment: also
+        # by a later top-level sibling)
+        depth, ends = 0, {}
+        stack = []
+        for i, x in enumerate(t):
+            if x["k"] == "stag":
+                if x["empty"]:
+                    ends[i] = (i, len(stack))
+                else:
+                    stack.append(i)
+            elif x["k"] == "etag" and stack:
+                j = stack.pop()
+                ends[j] = (i, len(stack))
+        cands = [(i, e) for i, (e, dep) in ends.items() if dep >= 1 or mode == "frag"]
+        if not cands:
+            return None
+        i, e = rnd.choice(cands)
+        add_attr(t[i], "xmlns", "dx", [piece("lit", c) for c in cps("u3")])
+        t.insert(e + 1, tok("stag", [part("lit", "<"), part("ename", "dx:z"), part("lit", "/>")], px="dx", ln="z", empty=True, attrs=[]))
+    elif kind == "charref-overflow" and content_pos:
+        # a reference whose value only looks like a character after wrapping to 32 bits (or 16, or 8)
+        bad = rnd.choice(["&#x100000041;", "&#4294967361;", "&#x10000000A;", "&#x1000000000000041;", "&#18446744073709551681;", "&#x110041;", "&#x200041;"])
+        if rnd.random() < 0.4 and stags:
+            i = stags[-1]
+            add_attr(t[i], "", "bad", [piece("lit", 120)])
+            vals = [p for p in t[i]["parts"] if p["r"] == "aval"]
+            vals[-1]["s"] = cps("ab" + bad)
+            t[i]["k"] = "junk"
+            t[i]["junk"] = "bad-charref-in-attribute"
+        else:
+            t.insert(rnd.choice(content_pos), junk(bad, "bad-charref"))
     elif kind == "undeclared-elem-prefix" and content_pos:
         i = rnd.choice(content_pos)
         t.insert(i, tok("stag", [part("lit", "<"), part("ename", "und:e"), part("lit", "/>")], px="und", ln="e", empty=True))
